@@ -3,7 +3,7 @@
 use crate::alloc;
 use crate::elem::*;
 use crate::gen::Rng;
-use crate::ops::{install_panic_hook, LAST_PANIC};
+use crate::ops::{ids_fmt, install_panic_hook, keys_fmt, windowed, LAST_PANIC};
 use griddle::hash_map::Entry;
 use griddle::{HashMap, HashSet};
 use std::collections::{BTreeMap, BTreeSet};
@@ -324,6 +324,54 @@ fn build_set(g: &mut Rng, hk: HKind, universe: u64, log: &mut Vec<String>) -> (S
     (s, r)
 }
 
+/// the hook read-out of a set, in the transcript's field syntax
+fn set_obs(a: &S) -> String {
+    let st = a.verif_state();
+    format!(
+        "len={} cap={} mi={} mgl={} mb={} old={}",
+        a.len(),
+        a.capacity(),
+        st.main_len,
+        st.main_cap - st.main_len,
+        st.main_buckets,
+        match st.old {
+            None => "-".to_string(),
+            Some((l, _c, b, cur)) => format!("{l},{b},{cur}"),
+        }
+    )
+}
+/// the model adopts the set as it is (`sync`): elements as `value#object:0#0`
+fn set_sync(a: &S) -> String {
+    let st = a.verif_state();
+    let all: Vec<String> = a.iter().map(|k| format!("{}#{}:0#0", k.k(), k.id)).collect();
+    let n = st.main_len.min(all.len());
+    let f = |v: &[String]| if v.is_empty() { "-".to_string() } else { v.join(",") };
+    format!(
+        "sync 0 | main={} oldents={} mb={} mgl={} ob={} cur={} | ",
+        f(&all[..n]),
+        f(&all[n..]),
+        st.main_buckets,
+        st.main_cap - st.main_len,
+        st.old.map_or("-".to_string(), |o| o.2.to_string()),
+        st.old.map_or(0, |o| o.3)
+    )
+}
+/// one lock-step line of a single-set operation (`SetOps` in GriddleModel/Set.lean)
+fn set_line(head: String, a: &S, before: &BTreeMap<u64, u64>, split_before: bool, ret: String, dh: u64, da: u64, df: u64, dropped: &mut Vec<u64>) -> String {
+    let mut orc = String::new();
+    let st = a.verif_state();
+    let _ = st;
+    if da >= 1 && !before.is_empty() && !split_before {
+        // a growth parked the table: the keys carried since, then what is still parked in cursor order
+        let mut ok = vec![];
+        a.verif_old_keys(usize::MAX, |x| ok.push(x.k()));
+        let mut all: Vec<u64> = before.keys().copied().filter(|k| !ok.contains(k)).collect();
+        all.extend_from_slice(&ok);
+        orc = format!("perm={}", keys_fmt(&all));
+    }
+    format!("{head} | {orc} | ret={ret} {} dh={dh} da={da} df={df} drop={} panic=-", set_obs(a), ids_fmt(dropped))
+}
+
 fn sets(rep: &mut Report, seed: u64, scale: u64) {
     let rounds = 400 * scale;
     for round in 0..rounds {
@@ -458,43 +506,71 @@ fn sets(rep: &mut Report, seed: u64, scale: u64) {
             if !inter.is_subset(&a) || !a.is_superset(&inter) || !inter.is_subset(&b) {
                 problems.push("subset of an intersection".into());
             }
-            // history of single-set operations on `a`
+            // history of single-set operations on `a` (in lock-step with `SetOps`: insert, replace, remove, take, get,
+            // get_or_insert, get_or_insert_with; after anything else the model adopts the set)
+            tlines.push(format!("H id=set-{round} debug={} R=8 elem={} limit={} hasher=-", cfg!(debug_assertions) as u8, std::mem::size_of::<(Key, ())>(), alloc::LIMIT));
+            tlines.push(set_sync(&a));
             for step in 0..60 {
                 let k = g.below(universe + 5);
                 // which OBJECT stands for each stored value: only `replace(k)` may exchange it (for `k`)
                 let before: BTreeMap<u64, u64> = a.iter().map(|x| (x.k(), x.id)).collect();
                 let opcode = g.below(14);
+                let split_before = a.verif_state().old.is_some();
                 match opcode {
                     0 | 1 => {
-                        if a.insert(Key::new(k)) != ra.insert(k) { problems.push(format!("insert {k} @{step}")); }
+                        let key = Key::new(k);
+                        let kid = key.id;
+                        let mut cr = windowed(|| a.insert(key));
+                        let got = cr.r.clone().unwrap_or(false);
+                        tlines.push(set_line(format!("sinsert 0 {k} {kid}"), &a, &before, split_before, (got as u8).to_string(), cr.dh, cr.da, cr.df, &mut cr.dropped));
+                        if cr.r.is_err() || got != ra.insert(k) { problems.push(format!("insert {k} @{step}")); }
                     }
                     2 => {
-                        let got = a.replace(Key::new(k)).map(|x| x.k());
+                        let key = Key::new(k);
+                        let kid = key.id;
+                        let mut cr = windowed(|| a.replace(key));
+                        let old = cr.r.as_ref().ok().and_then(|x| x.as_ref()).map(|x| (x.k(), x.id));
+                        tlines.push(set_line(format!("sreplace 0 {k} {kid}"), &a, &before, split_before, old.map_or("-".to_string(), |x| x.1.to_string()), cr.dh, cr.da, cr.df, &mut cr.dropped));
                         let want = if ra.contains(&k) { Some(k) } else { None };
                         ra.insert(k);
-                        if got != want { problems.push(format!("replace {k}")); }
+                        if cr.r.is_err() || old.map(|x| x.0) != want { problems.push(format!("replace {k}")); }
                     }
                     3 => {
-                        if a.remove(&Q(k)) != ra.remove(&k) { problems.push(format!("remove {k}")); }
+                        let mut cr = windowed(|| a.remove(&Q(k)));
+                        let got = cr.r.clone().unwrap_or(false);
+                        tlines.push(set_line(format!("sremove 0 {k}"), &a, &before, split_before, (got as u8).to_string(), cr.dh, cr.da, cr.df, &mut cr.dropped));
+                        if cr.r.is_err() || got != ra.remove(&k) { problems.push(format!("remove {k}")); }
                     }
                     4 => {
-                        let got = a.take(&Q(k)).map(|x| x.k());
+                        let mut cr = windowed(|| a.take(&Q(k)));
+                        let got = cr.r.as_ref().ok().and_then(|x| x.as_ref()).map(|x| (x.k(), x.id));
+                        tlines.push(set_line(format!("stake 0 {k}"), &a, &before, split_before, got.map_or("-".to_string(), |x| x.1.to_string()), cr.dh, cr.da, cr.df, &mut cr.dropped));
                         let want = if ra.remove(&k) { Some(k) } else { None };
-                        if got != want { problems.push(format!("take {k}")); }
+                        if cr.r.is_err() || got.map(|x| x.0) != want { problems.push(format!("take {k}")); }
                     }
                     5 => {
-                        if a.get(&Q(k)).map(|x| x.k()) != ra.get(&k).copied() { problems.push(format!("get {k}")); }
+                        let mut cr = windowed(|| a.get(&Q(k)).map(|x| (x.k(), x.id)));
+                        let got = cr.r.clone().ok().flatten();
+                        tlines.push(set_line(format!("sget 0 {k}"), &a, &before, split_before, got.map_or("-".to_string(), |x| x.1.to_string()), cr.dh, cr.da, cr.df, &mut cr.dropped));
+                        if got.map(|x| x.0) != ra.get(&k).copied() { problems.push(format!("get {k}")); }
                     }
                     6 => {
-                        let got = a.get_or_insert(Key::new(k)).k();
+                        let key = Key::new(k);
+                        let kid = key.id;
+                        let mut cr = windowed(|| { let r = a.get_or_insert(key); (r.k(), r.id) });
+                        let got = cr.r.clone().unwrap_or((u64::MAX, 0));
+                        tlines.push(set_line(format!("sgoi 0 {k} {kid} 0"), &a, &before, split_before, got.1.to_string(), cr.dh, cr.da, cr.df, &mut cr.dropped));
                         ra.insert(k);
-                        if got != k { problems.push(format!("get_or_insert {k}")); }
+                        if got.0 != k { problems.push(format!("get_or_insert {k}")); }
                     }
                     7 => {
                         let mut called = 0;
-                        let got = a.get_or_insert_with(&Q(k), |q| { called += 1; Key::new(q.0) }).k();
+                        let kid = peek_next_id();
+                        let mut cr = windowed(|| { let r = a.get_or_insert_with(&Q(k), |q| { called += 1; Key::new(q.0) }); (r.k(), r.id) });
+                        let got = cr.r.clone().unwrap_or((u64::MAX, 0));
+                        tlines.push(set_line(format!("sgoi 0 {k} {kid} 1"), &a, &before, split_before, got.1.to_string(), cr.dh, cr.da, cr.df, &mut cr.dropped));
                         let was = !ra.insert(k);
-                        if got != k { problems.push(format!("get_or_insert_with {k}")); }
+                        if got.0 != k { problems.push(format!("get_or_insert_with {k}")); }
                         if called != (!was) as u32 { problems.push(format!("get_or_insert_with {k} (present = {was}): closure called {called} times")); }
                     }
                     8 => {
@@ -546,6 +622,9 @@ fn sets(rep: &mut Report, seed: u64, scale: u64) {
                     _ => {
                         a.reserve(g.below(60) as usize);
                     }
+                }
+                if opcode >= 8 {
+                    tlines.push(set_sync(&a));
                 }
                 if a.len() != ra.len() || a.is_empty() != ra.is_empty() {
                     problems.push(format!("len {} vs {} @{step}", a.len(), ra.len()));
